@@ -529,7 +529,7 @@ func execC12(env *sim.Env, c C12Case) CaseResult {
 					}
 					hist = append(hist, d)
 				}
-				st.Samples = append(st.Samples, map[string]any{"world": c.World.Name, "history": hist, "status": r.Obs.Status, "twin_status": tw.Obs.Status,
+				st.Samples = append(st.Samples, map[string]any{"mode": c.Mode, "world": c.World.Name, "history": hist, "status": r.Obs.Status, "twin_status": tw.Obs.Status,
 					"out_hash": sim.HashBytes(r.OutBytes), "twin_out_hash": sim.HashBytes(tw.OutBytes)})
 			}
 		default:
